@@ -213,7 +213,7 @@ def _replay_unchanged(case, hist, overflow):
                 elif kind == "deepcopy":
                     res = copy.deepcopy(res)
                 elif kind == "pickle":
-                    res = pickle.loads(pickle.dumps(res))
+                    res = pickle.loads(pickle.dumps(res, protocol=PICKLE_PROTOCOLS[step % len(PICKLE_PROTOCOLS)]))
         except Exception as exc:
             if not overflow:
                 probs.append((f"step{step}:{kind}", name, -1, f"{tag}: raises {type(exc).__name__}", str(exc)[:100]))
@@ -226,7 +226,8 @@ def _replay_unchanged(case, hist, overflow):
     return probs
 
 
-TABULATED = ("cf_rad", "cf_deg", "cf", "asd", "Hxy_rad_error")
+TABULATED = ("cf_rad", "cf_deg", "cf", "asd", "Hxy_rad_error", "Gxx", "coh", "Gxy")
+PICKLE_PROTOCOLS = (0, 1, pickle.HIGHEST_PROTOCOL, 2)        # every pickle protocol is a public way of copying a result
 
 
 def tabulated_measure_checks(res, case, step):
@@ -237,19 +238,25 @@ def tabulated_measure_checks(res, case, step):
             tab = getattr(res, name)
         if tab is None:
             continue
-        tab = np.asarray(tab, dtype=float)
+        tab = np.asarray(tab)
         if not np.all(np.isfinite(tab)):
             continue
-        for q, wt in case.get("weights", []):
-            j, w = wt["j"] - 1, rat(wt["w"])
+        f_tab = np.asarray(res.f, dtype=float)
+        near = []                      # queries a hair (1e-6 relative) above each interior grid frequency: still strictly between two bins
+        for j in range(len(f_tab) - 1):
+            qn = float(f_tab[j]) * (1.0 + 1e-6) if f_tab[j] > 0 else 1e-9
+            if f_tab[j] < qn < f_tab[j + 1]:
+                near.append((qn, {"j": j + 1, "w": None, "wf": (qn - f_tab[j]) / (f_tab[j + 1] - f_tab[j])}))
+        for q, wt in list(case.get("weights", [])) + near:
+            j, w = wt["j"] - 1, (rat(wt["w"]) if wt.get("w") is not None else wt["wf"])
             want = tab[j] + w * (tab[j + 1] - tab[j]) if w != 0 else tab[j]
             try:
-                got = res.get_measurement(rat(q), name)
+                got = res.get_measurement(q if isinstance(q, float) else rat(q), name)
             except Exception as exc:
                 probs.append((f"step{step}:measure", name, -1, f"raises {type(exc).__name__}", str(exc)[:80]))
                 break
             if not (abs(got - want) <= REL * max(1.0, abs(want))):
-                probs.append((f"step{step}:measure", name, -1, f"value at f={rat(q)}: {got!r}", f"expected {want!r} (linear between tabulated values {tab[j]!r} and {tab[min(j + 1, len(tab) - 1)]!r})"))
+                probs.append((f"step{step}:measure", name, -1, f"value at f={q if isinstance(q, float) else rat(q)}: {got!r}", f"expected {want!r} (linear between tabulated values {tab[j]!r} and {tab[min(j + 1, len(tab) - 1)]!r})"))
                 break
     return probs
 
@@ -311,7 +318,7 @@ def replay_history(item):
                 elif kind == "deepcopy":
                     res = copy.deepcopy(res)
                 elif kind == "pickle":
-                    res = pickle.loads(pickle.dumps(res))
+                    res = pickle.loads(pickle.dumps(res, protocol=PICKLE_PROTOCOLS[step % len(PICKLE_PROTOCOLS)]))
         except Exception as exc:
             probs.append((f"step{step}:{kind}", name, -1, f"raises {type(exc).__name__}", str(exc)[:100]))
             break
